@@ -7,6 +7,7 @@
   theorem needs a fact about lengths it is an explicit hypothesis.
 -/
 import GeoProofs.Lemmas.C06Dom
+import GeoProofs.Lemmas.C06Spec
 import Mathlib.Tactic.NormNum
 
 namespace Geo.Proofs.C06
@@ -84,5 +85,126 @@ theorem centroid_none_iff (len : Pt → Pt → Rat) (g : Geom) :
 
 example : centroid (fun _ _ => 1) (.collection [.multiPolygon [], .lineString [], .polygon ⟨[], [[⟨1, 1⟩]]⟩]) = none := by
   rw [centroid_none_iff]; rfl
+
+/-! ### T1 the ring formula -/
+
+/-- [T] the shifted shoelace sum used by `twice_signed_ring_area` equals the textbook sum
+`Σ det(pᵢ, pᵢ₊₁)` (both are 0 for open rings and for fewer than 3 coordinates). -/
+theorem ringArea_shift (r : List Pt) : ringArea r = twiceAreaText r / 2 := ringArea_eq_text r
+
+/-- [T] `ringCentroid_shift`: for a ring with area, the centroid `add_ring` computes from the
+ring shifted to its first coordinate equals the textbook `Σ (pᵢ+pᵢ₊₁)·det(pᵢ,pᵢ₊₁) / (6A)`. -/
+theorem ringCentroid_shift_text (s : Pt) (t : List Pt) (h : ringArea (s :: t) ≠ 0) :
+    Pt.divS (ringAccum s (s :: t)) (6 * ringArea (s :: t)) + s = ringCentroidText (s :: t) :=
+  ringCentroid_shift s t h
+
+example : ringArea [⟨1, 1⟩, ⟨3, 1⟩, ⟨3, 4⟩, ⟨1, 1⟩] ≠ 0 := by
+  simp [ringArea, twiceArea, isClosed, windows2, det]; norm_num
+
+/-- [T] ring level: `add_ring` contributes exactly the specification's atoms of the ring: weight
+`|A|` at the textbook centroid (so a ring's direction does not matter), the outline for a ring
+without area, the point for a collapsed ring, nothing for an empty ring. -/
+theorem ring_contribution_spec (len : Pt → Pt → Rat) (o : Op) (r : List Pt) :
+    addRing len o r = ((ringAtoms len r).map Atom.toWC).foldl addWC o := by
+  rw [addRing_eq, ringC_eq_atoms]; rfl
+
+/-! ### T1 degenerate fallbacks -/
+
+/-- [T] a ring without area that is not a single point is treated as a line string. -/
+theorem ring_flat_is_linestring (len : Pt → Pt → Rat) (o : Op) (r : List Pt)
+    (h : ringArea r = 0) (hd : lsDims r = 2) : addRing len o r = addLineString len o r := by
+  simp [addRing, h, hd]
+
+/-- [T] a ring collapsed to one point is that point. -/
+theorem ring_point_is_point (len : Pt → Pt → Rat) (o : Op) (c : Pt) (t : List Pt)
+    (h : ringArea (c :: t) = 0) (hd : lsDims (c :: t) = 1) : addRing len o (c :: t) = addCoord o c := by
+  simp [addRing, h, hd]
+
+example : ringArea [⟨0, 0⟩, ⟨2, 0⟩, ⟨0, 0⟩] = 0 ∧ lsDims [⟨0, 0⟩, ⟨2, 0⟩, ⟨0, 0⟩] = 2 := by
+  constructor
+  · simp [ringArea, twiceArea, isClosed, windows2, det]
+  · simp [lsDims]
+
+/-- [T] a polygon whose holes (with area) exactly cancel its exterior contributes the exterior as
+a line string, whatever the accumulator holds. -/
+theorem polygon_zero_weight_fallback (len : Pt → Pt → Rat) (o : Op) (p : Poly) (e i : WC)
+    (he : addRing len none p.ext = some e) (hi : p.ints.foldl (addRing len) none = some i)
+    (h3 : i.dim = 3) (hw : (e.subAssign i).weight = 0) :
+    addPolygon len o p = addLineString len o p.ext := by
+  simp [addPolygon, he, hi, h3, hw]
+
+private theorem foldWC_dims_le (k : Nat) (o : Op) (l : List WC) (ho : o.dims ≤ k)
+    (hl : ∀ w ∈ l, w.dim ≤ k) : (foldWC o l).dims ≤ k := by
+  induction l generalizing o with
+  | nil => exact ho
+  | cons w t ih =>
+    rw [foldWC_cons]
+    apply ih
+    · cases o with
+      | none => simpa [addWC, Op.dims] using hl w (by simp)
+      | some c =>
+        have hw := hl w (by simp)
+        simp only [Op.dims] at ho
+        simp only [addWC, Op.dims, WC.addAssign]
+        split
+        · exact hw
+        · split <;> exact ho
+    · intro w' hw'; exact hl w' (by simp [hw'])
+
+private theorem ringC_flat_dims (len : Pt → Pt → Rat) (r : List Pt) (h : ringArea r = 0) :
+    ∀ w ∈ ringC len r, w.dim ≤ 2 := by
+  intro w hw
+  rw [ringC_eq_atoms] at hw
+  have ht : twiceAreaText r = 0 := by
+    have := ringArea_eq_text r; rw [h] at this; linarith
+  simp only [ringAtoms, if_pos ht] at hw
+  cases r with
+  | nil => simp at hw
+  | cons f t =>
+    simp only at hw
+    split at hw
+    · simp at hw; subst hw; simp [Atom.toWC]
+    · rw [← lineStringC_eq_atoms] at hw
+      exact lineStringC_dim_le len _ w hw
+
+private theorem foldl_addRing_dims (len : Pt → Pt → Rat) (rs : List (List Pt)) (o : Op) (ho : o.dims ≤ 2)
+    (h : ∀ r ∈ rs, ringArea r = 0) : (rs.foldl (addRing len) o).dims ≤ 2 := by
+  induction rs generalizing o with
+  | nil => exact ho
+  | cons r t ih =>
+    rw [List.foldl_cons]
+    apply ih
+    · rw [addRing_eq]
+      exact foldWC_dims_le 2 o _ ho (ringC_flat_dims len r (h r (by simp)))
+    · intro r' hr'; exact h r' (by simp [hr'])
+
+/-- [T] `polygon_flat_fallback`: a polygon without area (flat exterior; interiors without area,
+which are ignored) has the centroid of its outline, the exterior ring taken as a line string. -/
+theorem polygon_flat_fallback (len : Pt → Pt → Rat) (p : Poly)
+    (h0 : ringArea p.ext = 0) (hd : lsDims p.ext = 2) (hh : ∀ r ∈ p.ints, ringArea r = 0) :
+    centroid len (.polygon p) = centroid len (.lineString p.ext) := by
+  have hext : addRing len none p.ext = addLineString len none p.ext :=
+    ring_flat_is_linestring len none p.ext h0 hd
+  have hint : (p.ints.foldl (addRing len) none).dims ≤ 2 :=
+    foldl_addRing_dims len p.ints none (by simp [Op.dims]) hh
+  simp only [centroid, addGeom, addPolygon, hext]
+  cases hX : addLineString len none p.ext with
+  | none => rfl
+  | some e =>
+    cases hI : p.ints.foldl (addRing len) none with
+    | none => rfl
+    | some i =>
+      have : i.dim ≠ 3 := by
+        rw [hI] at hint; simp only [Op.dims] at hint; omega
+      simp [this, addWC]
+
+example : centroid (fun _ _ => 2) (.polygon ⟨[⟨0, 0⟩, ⟨2, 0⟩, ⟨0, 0⟩], [[⟨5, 5⟩, ⟨6, 5⟩, ⟨5, 5⟩]]⟩)
+    = centroid (fun _ _ => 2) (.lineString [⟨0, 0⟩, ⟨2, 0⟩, ⟨0, 0⟩]) := by
+  apply polygon_flat_fallback
+  · simp [ringArea, twiceArea, isClosed, windows2, det]
+  · simp [lsDims]
+  · intro r hr
+    simp at hr; subst hr
+    simp [ringArea, twiceArea, isClosed, windows2, det]
 
 end Geo.Proofs.C06
